@@ -151,6 +151,8 @@ type Value struct {
 	Elts   []*Value // VTuple
 	// static knowledge about function values (closures passed as arguments)
 	Fn *FuncVal
+	// static knowledge about pointers obtained with & from a field / element: the location pointed to
+	Addr *Loc
 }
 
 type FuncVal struct {
